@@ -344,3 +344,67 @@ package klog
 //@ loop 1 invariant forall(i, 0, rangeindex+1, !typeis(r.entries[i].value, *openRange)) && forall(i, 0, len(r.entries), ekind(r.entries[i]))
 //@ loop 1 invariant forall(j, 0, len(r.entries), same(r.entries[j], old(r.entries[j])))
 //@ loop 1 invariant same(r.entries, old(r.entries)) && forall(i, 0, len(r.entries), same(r.entries[i].summary, old(r.entries[i].summary)))
+
+// ---------------------------------------------------------------------------------------------
+// tag.go — property C14: tag sets. A tag set is a map from tags (name, value - compared by content) to true.
+
+// NewTagOrPanic: the name is stored in lower case, the value as given; it panics only for a value that contains
+// both kinds of quotes.
+//@ func NewTagOrPanic
+//@ requires !(strcontains(value, "\"") && strcontains(value, "'"))
+//@ ensures result.name == tolower(name) && same(result.value, value)
+
+//@ func (Tag).Name
+//@ ensures same(result, t.name)
+//@ func (Tag).Value
+//@ ensures same(result, t.value)
+
+// anyTag(): an arbitrary but fixed tag. What a contract states about it holds for every tag.
+//@ spec anyTag() Tag
+//@ spec isTag(t Tag, name string, value string) bool = t.name == name && t.value == value
+
+//@ func NewEmptyTagSet
+//@ ensures mapisempty(result.lookup) && fresh(result.lookup) && len(result.original) == 0
+
+// Put: registers the tag itself and, so that a tag with a value also matches its bare name, the tag's name without
+// value - exactly these two keys (the whole map is pinned down: the old map with the two keys set to true).
+//@ func (*TagSet).Put
+//@ requires ts != nil && nonnil(ts.lookup)
+//@ modifies mapof(ts.lookup), ts.original
+//@ ensures ts.lookup[tag] && ts.lookup[Tag{tolower(tag.name), ""}]
+//@ ensures len(ts.original) == old(len(ts.original)) + 1 && same(ts.original[len(ts.original)-1], tag)
+// ... and nothing else: every other tag is in the set afterwards exactly if it was before
+//@ ensures implies(old(ts.lookup[anyTag()]), ts.lookup[anyTag()])
+//@ ensures implies(ts.lookup[anyTag()] && !old(ts.lookup[anyTag()]), isTag(anyTag(), tag.name, tag.value) || isTag(anyTag(), tolower(tag.name), ""))
+//@ ensures forall(i, 0, old(len(ts.original)), same(ts.original[i], old(ts.original[i])))
+
+// Contains: plain lookup (a queried bare name finds tags with any value, because Put registered the bare name).
+//@ func (*TagSet).Contains
+//@ requires ts != nil
+//@ ensures result == ts.lookup[tag]
+
+//@ func (*TagSet).IsEmpty
+//@ requires ts != nil
+//@ ensures result == (len(ts.lookup) == 0)
+
+// Merge: every tag of every argument set is in the result (this is how record-level tags apply to every entry: the
+// sets of the record summary and of the entry summary are merged).
+//@ func Merge
+//@ requires forall(i, 0, len(tagSets), tagSets[i] != nil && nonnil(tagSets[i].lookup))
+//@ ensures nonnil(result.lookup)
+//@ ensures forall(i, 0, len(tagSets), implies(tagSets[i].lookup[anyTag()], result.lookup[anyTag()]))
+//@ loop 1 invariant nonnil(result.lookup) && fresh(result.lookup) && forall(i, 0, rangeindex+1, implies(tagSets[i].lookup[anyTag()], result.lookup[anyTag()]))
+//@ loop 2 invariant nonnil(result.lookup) && fresh(result.lookup) && forall(i, 0, loopindex(1)+1, implies(tagSets[i].lookup[anyTag()], result.lookup[anyTag()])) && implies(visited(anyTag()), result.lookup[anyTag()])
+
+// NewTagFromString (with the optional `#` supplied): the text is a tag exactly when the tag pattern matches it as a
+// whole; the name is the matched name in lower case; the value is the matched value, without its quotes when it is
+// quoted (the quotes are exactly the first and last character of a quoted value), and empty when there is none.
+//@ func NewTagFromString
+//@ let t = ite(len(tag) >= 1 && tag[0] == 35, tag, "#" + tag)
+//@ let m = matches(HashTagPattern, t) && len(group(HashTagPattern, t, 0)) == len(t)
+//@ let v = group(HashTagPattern, t, 3)
+//@ let quoted = len(v) >= 1 && (v[0] == 34 || v[0] == 39)
+//@ ensures (result1 == nil) == m
+//@ ensures implies(m, result0.name == tolower(group(HashTagPattern, t, 1)))
+//@ ensures implies(m && quoted, len(v) >= 2 && result0.value == v[1:len(v)-1])
+//@ ensures implies(m && !quoted, same(result0.value, v))
